@@ -1202,3 +1202,27 @@ func (rt *Runtime) prov(id uint64, depth int) string {
 
 // ExecCount is how often party pi has executed so far.
 func (rt *Runtime) ExecCount(pi int) int { return rt.execs[pi] }
+
+// SetSnapshot renders what a caller can observe in the Input()/Output() value
+// sets of every party's Func: for each value, whether it holds a Value and
+// which token. Planning (Redefine) must leave it unchanged.
+func (rt *Runtime) SetSnapshot() string {
+	out := ""
+	for pi, f := range rt.funcs {
+		if f == nil || pi >= len(rt.W.Parties) {
+			continue
+		}
+		for si, set := range []*argmapper.ValueSet{f.Input(), f.Output()} {
+			if set == nil {
+				continue
+			}
+			for vi, v := range set.Values() {
+				if v.Value.IsValid() {
+					id, _, _ := Decode(v.Value)
+					out += fmt.Sprintf("P%d.%d.%d=%d;", pi, si, vi, id)
+				}
+			}
+		}
+	}
+	return out
+}
